@@ -16,7 +16,7 @@ from ..fa import FA
 from ..loader import AnalysisError
 from .valeq import check_typed_identity
 from .ladders import extract_ladder, check_ladder_order, repo_subclass_pairs
-from .c16 import (FlatInit, canon_conj, conds, ftext, is_copy_of, lit_expr, origin, same_def, single_def, strip_cast, _ref_name)
+from .c16 import (FlatInit, canon_conj, conds, ftext, is_copy_of, lit_expr, map_shape, origin, same_def, single_def, strip_cast, _ref_name)
 
 AH = "reference.ArgumentHasher"
 FRA = "reference.FunctionReferenceWithArguments"
@@ -532,7 +532,7 @@ def check(ck):
         ok = normalised_field(ini, field, src)
         ck.ob(R3, ini.key(None, "normalised-" + field), ok, "self.%s holds the normalised values" % field if ok else
               "self.%s is stored without ArgumentHasher.normalize: the body sees other values than the key was computed from" % field, ini.where())
-    ek, hk = fl.ek, fl.hk
+    ek = fl.ek
     # every read of the normalised fields (and every helper left as a call) sees their final values
     okE = ek is not None
     for n_ in A.walk_body(ini.node):
@@ -572,12 +572,16 @@ def check(ck):
         return out
 
     ek_muts = mutations(ini, ek) if ek is not None else []
-    okC = fl.hash_call is not None and hk is not None and ek is not None
+    hks = fl.hks
+    okC = fl.hash_call is not None and bool(hks) and ek is not None
     if okC:
-        src = is_copy_of(hk.value)
-        okC = same_def(hk, ek) or (src is not None and same_def(origin(ini, src, hk.node), ek))
+        # in every case the hash input is the effective kwargs or starts as a copy of them
+        late_from = []
+        for h in hks:
+            sh = map_shape(h.value)
+            okC = okC and (same_def(h, ek) or (sh is not None and sh[0] is not None and same_def(origin(ini, sh[0], h.node), ek)))
+            late_from.append(h.node if not same_def(h, ek) else fl.hash_at)
         # the mapping is complete when the hash (input) is taken
-        late_from = [hk.node] if not same_def(hk, ek) else [fl.hash_at]
         after = ini.cfg.reach(late_from, include_start=False)
         okC = okC and not any(set(ids) & after for (s, ids) in ek_muts)
     ck.ob(R3, ini.key(None, "hash-after-effective"), bool(okC), "the hash is computed from the effective kwargs (+ context args)" if okC else
